@@ -374,3 +374,81 @@ def pdv(ctx_id: int, fragment: bytes, is_command: bool, is_last: bool) -> dict:
 
 def pdata(*pdvs) -> dict:
     return {"type": "PDATA", "pdvs": list(pdvs)}
+
+
+# ------------------------------------------------------------------ conformance judgement (used to classify fuzz inputs)
+
+import re as _re
+_UID_RE = _re.compile(r"^(0|[1-9][0-9]*)(\.(0|[1-9][0-9]*))*$")
+_AE_BAD = _re.compile(r"[\x00-\x1f\\\x7f-\xff]")
+
+
+def _uid_ok(u):
+    return isinstance(u, str) and 0 < len(u) <= 64 and bool(_UID_RE.match(u))
+
+
+def conformance_problems(b: bytes):
+    """Why a single complete PDU is NOT a PS3.8-conformant PDU ([] = conformant as far as this reference can tell)."""
+    w = Walk()
+    try:
+        v = decode(b, w)
+    except Exception as exc:
+        return ["undecodable: %r" % exc]
+    pr = [p for p in w.problems if "reserved" not in p]   # reserved bytes are 'not tested on receipt'
+    t = v["type"]
+    if t in ("RQ", "AC"):
+        if v["n_app_ctx"] != 1: pr.append("application context items: %d" % v["n_app_ctx"])
+        if v["n_ui"] != 1: pr.append("user information items: %d" % v["n_ui"])
+        if not _uid_ok(v["app_ctx"] or ""): pr.append("application context name")
+        if v.get("version", 1) & 1 == 0: pr.append("protocol version bit 0 not set")
+        if t == "RQ":
+            for name in ("called_raw", "calling_raw"):
+                s = v[name]
+                if not s.strip(" ") or _AE_BAD.search(s): pr.append("AE title %s" % name)
+            if not (1 <= len(v["pcs"]) <= 128): pr.append("number of presentation contexts")
+        ids = [p["id"] for p in v["pcs"]]
+        if len(set(ids)) != len(ids): pr.append("duplicate context ids")
+        for p in v["pcs"]:
+            if p["id"] % 2 == 0: pr.append("even context id")
+            if t == "RQ":
+                if p["n_abs"] != 1 or not _uid_ok(p["abs"] or ""): pr.append("abstract syntax")
+                if not p["ts"] or not all(_uid_ok(x) for x in p["ts"]): pr.append("transfer syntaxes")
+            else:
+                if p["result"] not in (0, 1, 2, 3, 4): pr.append("context result")
+                if p["n_ts"] != 1: pr.append("AC transfer syntax items: %d" % p["n_ts"])
+                if p["result"] == 0 and not _uid_ok(p["ts"] or ""): pr.append("accepted transfer syntax")
+        kinds = [s["k"] for s in (v["ui"] or [])]
+        if kinds.count("maxlen") != 1: pr.append("maximum length sub-items: %d" % kinds.count("maxlen"))
+        if kinds.count("impl_uid") != 1: pr.append("implementation class uid sub-items")
+        if "unknown" in kinds: pr.append("unknown user-information sub-item")
+        for s in (v["ui"] or []):
+            k = s["k"]
+            if k == "impl_uid" and not _uid_ok(s["v"]): pr.append("implementation class uid")
+            if k == "impl_ver" and (not (1 <= len(s["v"]) <= 16) or _AE_BAD.search(s["v"])): pr.append("implementation version name")
+            if k in ("role", "sopext", "commonext") and not _uid_ok(s["uid"]): pr.append("%s uid" % k)
+            if k == "role" and (s["scu"] not in (0, 1) or s["scp"] not in (0, 1) or (s["scu"], s["scp"]) == (0, 0)): pr.append("role bytes")
+            if k == "commonext" and (not _uid_ok(s["svc"]) or not all(_uid_ok(x) for x in s["rel"])): pr.append("commonext uids")
+            if k == "uid_rq" and (s["utype"] not in (1, 2, 3, 4, 5) or s["resp"] not in (0, 1) or t != "RQ" or (s["utype"] == 2 and not s["sec"])): pr.append("user identity rq")
+            if k == "uid_ac" and t != "AC": pr.append("user identity ac in rq")
+            if k in ("commonext",) and t != "RQ": pr.append("commonext in ac")
+        if kinds.count("async") > 1 or kinds.count("impl_ver") > 1 or kinds.count("uid_rq") > 1 or kinds.count("uid_ac") > 1:
+            pr.append("duplicated single-occurrence sub-item")
+    elif t == "RJ":
+        legal = {1: (1, 2, 3, 7), 2: (1, 2), 3: (1, 2)}
+        if v["result"] not in (1, 2) or v["source"] not in legal or v["reason"] not in legal.get(v["source"], ()): pr.append("reject codes")
+    elif t == "ABORT":
+        if v["source"] not in (0, 2) or (v["source"] == 2 and v["reason"] not in (0, 1, 2, 4, 5, 6)): pr.append("abort codes")
+    elif t == "PDATA":
+        if not v["pdvs"]: pr.append("no PDV")
+        for p in v["pdvs"]:
+            if p["id"] is None or p["id"] % 2 == 0: pr.append("pdv context id")
+            if len(p["data"]) < 2: pr.append("pdv without control header")
+            elif int(p["data"][:2], 16) > 3: pr.append("control header reserved bits")
+    return pr
+
+
+def stream_conformant(stream: bytes) -> bool:
+    pdus, rest = split_stream(stream)
+    if rest or not pdus:
+        return False
+    return all(p[0] in range(1, 8) and not conformance_problems(p) for p in pdus)
